@@ -468,7 +468,7 @@ def awaitables_fresh(R, RID):
              '%s is wrapped by %s: calls with equal arguments get the same awaitable object back, whose outstanding byte '
              'count Parser.feed mutates - after a read that was split across two recv() calls the next read of that size is '
              'cut short' % (fi.qual, decs), func=fi, node=fi.node, construct='decorated awaitable factory %s' % fi.qual)
-    need(nfac >= 1, 'awaitable factory read_text not found')
+    R.extra['awaitable_factories'] = sorted(facs)
     for y in g.yields():
         if y.ast.value is None:
             continue
